@@ -102,6 +102,17 @@ CHECKS = {
              "mc/asm_ref.py",
         technique="bounded-exhaustive enumeration of programs x configurations with independent accounting and a "
                   "differential (single-contract) oracle"),
+    "C08": dict(
+        level="exploration", engine="E1+E2+E7", ref="DESIGN.md section 4 C08",
+        text="prefix trees and rule/memory families x {gas,size,length} x split modes through the per-block pipeline; "
+             "every emitted block that differs from its input is priced independently (bytes by libevmasm's rule, "
+             "instruction count, metered gas of a reference-EVM run on every state of the domain) and must be no "
+             "costlier in the criterion and improve by the stated rule; contracts of 8 blocks: the six printed totals "
+             "equal the sums of single-block runs and independent size/length figures",
+        note="gas = Berlin/London/Shanghai schedule with cold/warm access sets, EIP-2200 SSTORE without refunds, memory "
+             "expansion, per-byte/word surcharges; trusted base mc/evm_ref.py + mc/asm_ref.py",
+        technique="bounded-exhaustive enumeration of programs x criteria x states with independent cost functions; "
+                  "differential additivity oracle for totals"),
 }
 
 NOT_YET = "check not built yet in this session (planned in DESIGN.md section 4); nothing is claimed for it"
